@@ -83,7 +83,16 @@ def rule_merge_target(ctx):
         return
     # ... every level, for every feature: no early exit from the level loop or the feature loop
     cfg0 = cfg_of(ctx, fi)
-    jumps = [n for n in walk_no_nested(fi.node) if isinstance(n, (ast.Break, ast.Continue, ast.Return)) and any(isinstance(l, ast.For) for l in cfg0.enclosing_loops(n))]
+    jumps = []
+    for n in walk_no_nested(fi.node):
+        if isinstance(n, (ast.Break, ast.Continue, ast.Return)) and any(isinstance(l, ast.For) for l in cfg0.enclosing_loops(n)):
+            if isinstance(n, ast.Continue):
+                # `continue` when there is nothing to merge at this level leaves everything as it is
+                conds = _flatten_conditions(cfg0.path_conditions(n))
+                txt = [(unparse(t).replace(" ", ""), pol) for t, pol in conds]
+                if len(txt) == 1 and txt[0] in (("values_to_group", False), ("len(values_to_group)>0", False), ("len(values_to_group)==0", True), ("len(values_to_group)!=0", False), ("len(values_to_group)<1", True)):
+                    continue
+            jumps.append(n)
     ctx.ob(R, construct(fi, "no level is skipped: the level loop has no break / continue / return"), not jumps, loc(fi, jumps[0] if jumps else loops[0]),
            "" if not jumps else "groups that stay rare (or empty) at this level are no longer merged further up the hierarchy")
     level = loops[0].target.id
@@ -269,6 +278,7 @@ MUTANTS = [
     M("known values not added to the order", [(F_QUAL, "            for value in self.known_values:\n                if value not in order.values():\n                    order.append(value)\n", "")], "R-known-values-kept"),
 ]
 BENIGN = [
+    B("level with nothing to merge skipped explicitly", [(F_QUAL, "                # values to group into discarded values\n", "                if not values_to_group:\n                    continue\n\n                # values to group into discarded values\n")]),
     B("threshold operands swapped", [(F_QUAL, "values[frequencies >= self.min_freq]", "values[self.min_freq <= frequencies]")]),
     B("raise branch asserts len == 0", [(F_QUAL, "                    assert not len(unknown_values) > 0, (", "                    assert len(unknown_values) == 0, (")]),
     B("drop branch tested explicitly", [(F_QUAL, "                else:  # unknown_handling='drop'", "                elif self.unknown_handling == 'drop':")]),
